@@ -108,7 +108,7 @@ static rc::Gen<D> genD() {
     w.codec = *rc::gen::element(0, 0, 1, 2, 5, 6); w.page_size = *rc::gen::element<int64_t>(64, 64, 100, 256); w.order = (uint32_t)*irange(1, 1 << 30); w.opts = *rc::gen::weightedOneOf<int>({{3, rc::gen::just(0)}, {2, irange(0, 15)}}); w.level = *rc::gen::element(0, 0, 1, 9, 19);
     int nrg = *irange(1, 2);
     for (int g = 0; g < nrg; g++) {
-      size_t rows = (size_t)*irange(1, 30);
+      size_t rows = (size_t)*rc::gen::weightedOneOf<int>({{4, irange(1, 30)}, {1, irange(31, 80)}});
       w.fs.rg_rows.push_back((int64_t)rows);
       std::vector<pw::ChunkSpec> rg; std::vector<std::vector<int>> pc; std::vector<int> nl;
       for (auto &lf : lv) {
@@ -117,6 +117,9 @@ static rc::Gen<D> genD() {
         size_t nn = 0; for (size_t i = 0; i < rows; i++) if (!lf.max_def || cs.def[i]) nn++;
         cs.values = *rc::gen::container<std::vector<Bytes>>(nn, gf::valueGen(lf.type, lf.type_length));
         if (lf.type == pq::BYTE_ARRAY) for (auto &v : cs.values) if (v.size() > 40) v.resize(40);
+        // a third of the chunks repeat one to three values: compressed pages then consist of back references, whose
+        // lengths and offsets are what damage turns into out-of-range copies
+        if (nn > 2 && *irange(0, 2) == 0) { size_t k = (size_t)*irange(1, 3); for (size_t i = k; i < nn; i++) cs.values[i] = cs.values[i % k]; }
         pw::PageSpec pg; pg.end = rows; cs.pages.push_back(pg);
         rg.push_back(cs); nl.push_back(0);
         std::vector<int> part; size_t left = rows; while (left) { size_t k = (size_t)*irange(1, (int)std::min<size_t>(left, 8)); part.push_back((int)k); left -= k; }
